@@ -18,15 +18,15 @@ import (
 // property of the generated case, computed by the functions below, never text
 // taken from git-lfs output.
 const (
-	trigBang        = "filename-leading-bang"                     // --filename name starts with '!'
-	trigDquote      = "filename-leading-dquote"                   // --filename name is "word"tail (leading '"' and a later '"')
-	trigTab         = "filename-contains-tab"                     // --filename name contains a TAB
-	trigSpaceTab    = "space-also-matches-tab"                    // argument contains a space; witness path is the TAB variant of a denoted path
-	trigNeedsEsc    = "filename-needs-attr-escape"                // --filename name contains space, '#' or backslash
-	trigUntrackGlob = "untrack-filename-with-glob-chars"          // untrack of a name tracked with --filename that contains * ? [ ]
-	trigOwnLockable = "preexisting-same-pattern-lockable-only"    // .gitattributes already holds "<pattern> lockable"
-	trigOwnForeign  = "preexisting-same-pattern-foreign-filter"   // .gitattributes already holds "<pattern> filter=<other>"
-	trigBracketSpc  = "pattern-space-in-bracket-expression"       // pattern holds a space inside [...]
+	trigBang        = "filename-leading-bang"                   // --filename name starts with '!'
+	trigDquote      = "filename-leading-dquote"                 // --filename name is "word"tail (leading '"' and a later '"')
+	trigTab         = "filename-contains-tab"                   // --filename name contains a TAB
+	trigSpaceTab    = "space-also-matches-tab"                  // argument contains a space; witness path is the TAB variant of a denoted path
+	trigNeedsEsc    = "filename-needs-attr-escape"              // --filename name contains space, '#' or backslash
+	trigUntrackGlob = "untrack-filename-with-glob-chars"        // untrack of a name tracked with --filename that contains * ? [ ]
+	trigOwnLockable = "preexisting-same-pattern-lockable-only"  // .gitattributes already holds "<pattern> lockable"
+	trigOwnForeign  = "preexisting-same-pattern-foreign-filter" // .gitattributes already holds "<pattern> filter=<other>"
+	trigBracketSpc  = "pattern-space-in-bracket-expression"     // pattern holds a space inside [...]
 )
 
 type Arg struct {
